@@ -3,38 +3,190 @@
 package actor
 
 import (
+	"reflect"
 	"sort"
+	"unsafe"
 
 	"github.com/kercylan98/vivid"
-	"github.com/kercylan98/vivid/internal/scheduler"
+	"github.com/reugn/go-quartz/quartz"
 )
 
-// Accessors injected by the verification harness through `go build -overlay` (never committed to the repository).
+// Accessors of the C20 group, injected by the verification harness through `go build -overlay` (never committed to the
+// repository). They do not name any unexported field, type or function of the package: what they need is located by
+// reflection on the ROLE of a field (its type), with the current field name as a fast path only, and read through
+// reflect.NewAt(unsafe.Pointer(field.UnsafeAddr())). When nothing suitable exists the observation is reported as
+// unavailable (ok = false) and the harness goes on with the public-API observations.
 
-// XVSchedJobKeys returns a copy of the context's jobKeys as reference -> key (group NUL name). The map is owned by the
-// actor's goroutine: call it from a handler of that actor, or after the actor has terminated.
-func XVSchedJobKeys(c vivid.ActorContext) map[string]string {
-	ctx, ok := c.(*Context)
-	if !ok || ctx.scheduler == nil {
-		return nil
+var (
+	xvSchedulerIface = reflect.TypeOf((*vivid.Scheduler)(nil)).Elem()
+	xvQuartzIface    = reflect.TypeOf((*quartz.Scheduler)(nil)).Elem()
+	xvJobKeyPtr      = reflect.TypeOf((*quartz.JobKey)(nil))
+)
+
+// xvOpen makes a (possibly unexported) field readable
+func xvOpen(f reflect.Value) reflect.Value {
+	if !f.CanAddr() {
+		return f
 	}
-	out := make(map[string]string, len(ctx.scheduler.jobKeys))
-	for ref, k := range ctx.scheduler.jobKeys {
-		out[ref] = k.Group() + "\x00" + k.Name()
-	}
-	return out
+	return reflect.NewAt(f.Type(), unsafe.Pointer(f.UnsafeAddr())).Elem()
 }
 
-// XVSchedRefs returns the sorted references of the context's jobKeys.
-func XVSchedRefs(c vivid.ActorContext) []string {
-	m := XVSchedJobKeys(c)
-	out := make([]string, 0, len(m))
-	for ref := range m {
-		out = append(out, ref)
+// xvStruct: the struct behind an interface / pointer value
+func xvStruct(x any) (reflect.Value, bool) {
+	v := reflect.ValueOf(x)
+	for v.IsValid() && (v.Kind() == reflect.Pointer || v.Kind() == reflect.Interface) {
+		if v.IsNil() {
+			return reflect.Value{}, false
+		}
+		v = v.Elem()
 	}
-	sort.Strings(out)
-	return out
+	if !v.IsValid() || v.Kind() != reflect.Struct || !v.CanAddr() {
+		return reflect.Value{}, false
+	}
+	return v, true
 }
 
-// XVQuartzKeys returns (group, name) of all jobs queued in the system's quartz scheduler, sorted.
-func XVQuartzKeys(s *System) [][2]string { return scheduler.XVKeys(s.scheduler) }
+// xvField: the field named fast if it satisfies pred, else the first field that satisfies pred
+func xvField(s reflect.Value, fast string, pred func(reflect.Type) bool) (reflect.Value, bool) {
+	t := s.Type()
+	if sf, ok := t.FieldByName(fast); ok && len(sf.Index) == 1 && pred(sf.Type) {
+		return xvOpen(s.Field(sf.Index[0])), true
+	}
+	for i := 0; i < t.NumField(); i++ {
+		if pred(t.Field(i).Type) {
+			return xvOpen(s.Field(i)), true
+		}
+	}
+	return reflect.Value{}, false
+}
+
+// xvActorScheduler: the per-actor scheduler of a context = its field whose type implements vivid.Scheduler
+func xvActorScheduler(c vivid.ActorContext) (reflect.Value, bool) {
+	cs, ok := xvStruct(c)
+	if !ok {
+		return reflect.Value{}, false
+	}
+	f, ok := xvField(cs, "scheduler", func(t reflect.Type) bool { return t.Implements(xvSchedulerIface) })
+	if !ok || f.Kind() != reflect.Pointer || f.IsNil() || f.Elem().Kind() != reflect.Struct {
+		return reflect.Value{}, false
+	}
+	return f.Elem(), true
+}
+
+// XVSchedRefs returns the sorted references the actor's scheduler has on record (its reference -> job key table, or whatever
+// collection of references replaced it). ok = false: no such record could be located in this build of vivid.
+// The record is owned by the actor's goroutine: call it from a handler of that actor, or while that goroutine is parked.
+func XVSchedRefs(c vivid.ActorContext) (refs []string, ok bool) {
+	s, ok := xvActorScheduler(c)
+	if !ok {
+		return nil, false
+	}
+	strKey := func(t reflect.Type) bool { return t.Kind() == reflect.Map && t.Key().Kind() == reflect.String }
+	preds := []func(reflect.Type) bool{
+		func(t reflect.Type) bool { return strKey(t) && t.Elem() == xvJobKeyPtr },
+		func(t reflect.Type) bool { return strKey(t) && t.Elem().Kind() == reflect.Struct && reflect.PointerTo(t.Elem()) == xvJobKeyPtr },
+		func(t reflect.Type) bool { return t.Kind() == reflect.Slice && t.Elem().Kind() == reflect.String },
+		strKey,
+	}
+	for _, p := range preds {
+		f, found := xvField(s, "jobKeys", p)
+		if !found {
+			continue
+		}
+		out := []string{}
+		switch f.Kind() {
+		case reflect.Map:
+			for _, k := range f.MapKeys() {
+				out = append(out, k.String())
+			}
+		case reflect.Slice:
+			for i := 0; i < f.Len(); i++ {
+				out = append(out, f.Index(i).String())
+			}
+		}
+		sort.Strings(out)
+		return out, true
+	}
+	return nil, false
+}
+
+// xvQuartz: the go-quartz scheduler of an actor system = a field (at most two structs deep) whose value implements
+// quartz.Scheduler
+func xvQuartz(sys vivid.ActorSystem) (quartz.Scheduler, bool) {
+	root, ok := xvStruct(sys)
+	if !ok {
+		return nil, false
+	}
+	var find func(s reflect.Value, depth int) (quartz.Scheduler, bool)
+	find = func(s reflect.Value, depth int) (quartz.Scheduler, bool) {
+		t := s.Type()
+		order := make([]int, 0, t.NumField())
+		if sf, ok := t.FieldByName("scheduler"); ok && len(sf.Index) == 1 {
+			order = append(order, sf.Index[0])
+		}
+		for i := 0; i < t.NumField(); i++ {
+			order = append(order, i)
+		}
+		// first the fields that are a quartz scheduler themselves
+		for _, i := range order {
+			ft := t.Field(i).Type
+			if ft.Implements(xvQuartzIface) {
+				f := xvOpen(s.Field(i))
+				if (f.Kind() == reflect.Interface || f.Kind() == reflect.Pointer) && !f.IsNil() {
+					if q, ok := f.Interface().(quartz.Scheduler); ok {
+						return q, true
+					}
+				}
+			}
+		}
+		if depth == 0 {
+			return nil, false
+		}
+		// then wrappers: pointers to structs of a package whose name says "scheduler", then any struct pointer
+		for pass := 0; pass < 2; pass++ {
+			for _, i := range order {
+				ft := t.Field(i).Type
+				if ft.Kind() != reflect.Pointer || ft.Elem().Kind() != reflect.Struct {
+					continue
+				}
+				named := ft.Elem().Name() == "Scheduler"
+				if (pass == 0) != named {
+					continue
+				}
+				f := xvOpen(s.Field(i))
+				if f.IsNil() {
+					continue
+				}
+				if q, ok := find(f.Elem(), depth-1); ok {
+					return q, true
+				}
+			}
+		}
+		return nil, false
+	}
+	return find(root, 1)
+}
+
+// XVQuartzKeys returns (group, name) of all jobs queued in the system's go-quartz scheduler (quartz's own GetJobKeys), sorted.
+// ok = false: the scheduler could not be located.
+func XVQuartzKeys(sys vivid.ActorSystem) (keys [][2]string, ok bool) {
+	q, ok := xvQuartz(sys)
+	if !ok {
+		return nil, false
+	}
+	ks, err := q.GetJobKeys()
+	if err != nil {
+		return [][2]string{{"<error>", err.Error()}}, true
+	}
+	out := make([][2]string, 0, len(ks))
+	for _, k := range ks {
+		out = append(out, [2]string{k.Group(), k.Name()})
+	}
+	sort.Slice(out, func(i, j int) bool {
+		if out[i][0] != out[j][0] {
+			return out[i][0] < out[j][0]
+		}
+		return out[i][1] < out[j][1]
+	})
+	return out, true
+}
